@@ -156,6 +156,28 @@ def instances(formulas, opts=None):
                 out.append(fact(*e.children()))
             except Exception:  # pragma: no cover
                 pass
+    # grouped relational facts (relops.py): also instantiated at every integer constant of the query (and 0), for the
+    # parameter tuples with which any function of the group occurs
+    grouped = [(fname, fact) for fname, fact in (opts.get("array_facts") or []) if getattr(fact, "_group", None)]
+    if grouped:
+        int_consts = [c for f in formulas for c in sigma.free_consts(f) if z3.is_int(c)]
+        seen_c, consts = set(), [z3.IntVal(0)]
+        for c in int_consts:
+            if c.get_id() not in seen_c and len(consts) < 14:
+                seen_c.add(c.get_id())
+                consts.append(c)
+        for fname, fact in grouped:
+            ptuples = {}
+            for g in fact._group:
+                for e in apps.get(g, {}).values():
+                    ps = tuple(e.children()[1:])
+                    ptuples[tuple(x.get_id() for x in ps)] = ps
+            for ps in ptuples.values():
+                for c in consts:
+                    try:
+                        out.append(fact(c, *ps))
+                    except Exception:  # pragma: no cover
+                        pass
     # Σ instances
     sig_apps = []
     for name, d in apps.items():
